@@ -685,10 +685,12 @@ class Process:
         if WINDOWS and self._name is not None:
             return self._name
         name = self._proc.name()
-        if POSIX and len(name) >= 15:
-            # On UNIX the name gets truncated to the first 15 characters.
-            # If it matches the first part of the cmdline we return that
-            # one instead because it's usually more explicative.
+        if POSIX and len(os.fsencode(name)) >= 15:
+            # On UNIX the name gets truncated to the first 15 bytes (not
+            # characters: a name made of multi-byte characters is cut
+            # earlier). If it matches the first part of the cmdline we
+            # return that one instead because it's usually more
+            # explicative.
             # Examples are "gnome-keyring-d" vs. "gnome-keyring-daemon".
             try:
                 cmdline = self.cmdline()
@@ -702,7 +704,9 @@ class Process:
             else:
                 if cmdline:
                     extended_name = os.path.basename(cmdline[0])
-                    if extended_name.startswith(name):
+                    if os.fsencode(extended_name).startswith(
+                        os.fsencode(name)
+                    ):
                         name = extended_name
         self._name = name
         self._proc._name = name
